@@ -690,7 +690,8 @@ func (s *scanner) stateAnyAnnotationStart(c byte) (st state, err error) {
 }
 
 func (s *scanner) stateInlineAnnotation(c byte) (state, error) {
-	if bytes.IsBlank(c) {
+	// Not a line break: it ends the (empty) annotation.
+	if bytes.IsSpace(c) {
 		return scanSkip, nil
 	}
 
